@@ -8,11 +8,15 @@
       never followed by a publication ([C03_durable_before_visible]);
     - immutable afterwards: for every pool and schedule (the interleaving theorem
       of C01 restated for a visible entry), and the write discipline it rests on.
-    WHICH descriptor is flushed is not tracked by the ordering monitor; the
-    per-inode monitor on the implementation's traces (vlib/c03.py) and the trace
-    equality with the model pin it.  fsync's durability is the kernel's contract. *)
+    - WHICH file is flushed: for the path-based set / put and for set_temp_file /
+      put_temp_file, the accepted fsync is on a descriptor that was opened on the
+      very path that is then renamed / linked (the caller's descriptor for the
+      temp-file API), with no write in between ([C03_the_published_file_is_the_one_flushed]).
+    For ensure / get_or_update the file identity is pinned by the per-inode monitor
+    on the implementation's traces (vlib/c03.py) and the trace equality with the
+    model.  fsync's durability is the kernel's contract. *)
 From Coq Require Import List NArith ZArith String Bool.
-From Kismet Require Import FS.Fs FS.Prog Ops.Ops Ops.Client Spec.Wp Spec.ClassMon Spec.Calm Conc.Pool Conc.Effect Conc.Immut Proofs.WriteDisc Proofs.SyncFirst.
+From Kismet Require Import FS.Fs FS.Prog Ops.Ops Ops.Client Spec.Wp Spec.ClassMon Spec.Calm Conc.Pool Conc.Effect Conc.Immut Proofs.WriteDisc Proofs.SyncFirst Proofs.SyncPath.
 Import ListNotations.
 
 Theorem C03_durable_before_visible : forall cfg, s_autosync cfg = true ->
@@ -49,6 +53,28 @@ Proof. vm_compute. split; reflexivity. Qed.
 
 (** Once visible (no read-write descriptor left on it), an entry is never
     written, truncated or replaced in place by anybody, under any schedule. *)
+(** Which file: the per-file monitor for the value file [v] accepts every run from
+    every state: a rename / link of [v] is refused unless an accepted fsync went
+    through a descriptor opened on [v] since the last write. *)
+Theorem C03_the_published_file_is_the_one_flushed : forall cfg k v (which : bool) fd, s_autosync cfg = true ->
+  (forall s, syp v (if which then cache_set cfg k v else cache_put cfg k v) s) /\
+  (forall b, syp v (cache_write_temp which cfg k fd v) (Some fd, b)).
+Proof. intros cfg k v which fd H. split; [apply syp_cache_write, H|apply syp_cache_write_temp, H]. Qed.
+
+Theorem C03_per_file_on_every_run : forall cfg k v w o, s_autosync cfg = true ->
+  let '(_, _, _, tr) := run (cache_set cfg k v) w o in mon_run (yp_step v) (None, false) tr <> None.
+Proof. intros cfg k v w o H. exact (sync_path_run v _ _ (syp_cache_write v true cfg k H (None, false)) w o). Qed.
+
+Theorem C03_per_file_monitor_meaning : forall v q fd fd',
+  yp_step v (None, false) (EvCall (CRename v q) ROk) = None /\
+  yp_step v (Some fd, false) (EvCall (CFsync fd) ROk) = Some (Some fd, true) /\
+  (fd' <> fd -> yp_step v (Some fd, false) (EvCall (CFsync fd') ROk) = Some (Some fd, false)) /\
+  yp_step v (Some fd, true) (EvCall (CWrite fd []) ROk) = Some (Some fd, false).
+Proof.
+  intros v q fd fd'. cbn [yp_step fst snd]. rewrite Proofs.PutNeverOverwrites.path_eqb_refl, Nat.eqb_refl. repeat split.
+  intros H. destruct (Nat.eqb fd' fd) eqn:E; [apply Nat.eqb_eq in E; contradiction|reflexivity].
+Qed.
+
 Theorem C03_immutable_once_visible :
   forall A (ps : list (prog A * oracle)) f0 sched1 sched2 i D,
   fds_wf f0 -> Forall (fun po => disciplined (fst po)) ps ->
